@@ -5,6 +5,7 @@ package schema
 
 import (
 	"context"
+	"errors"
 
 	"github.com/zclconf/go-cty/cty"
 )
@@ -29,6 +30,13 @@ func (AnyExpression) isConstraintImpl() constraintSigil {
 
 func (ae AnyExpression) FriendlyName() string {
 	return ae.OfType.FriendlyNameForConstraint()
+}
+
+func (ae AnyExpression) Validate() error {
+	if ae.OfType == cty.NilType {
+		return errors.New("expected OfType not to be nil")
+	}
+	return nil
 }
 
 func (ae AnyExpression) Copy() Constraint {
